@@ -33,10 +33,19 @@ solver == oracle with an independently derived full filter inv(W^H H_kk F) W^H;
 solver == channel object fed the solver's own full_F / full_W; dB = 10 log10;
 sum capacity = sum log2(1 + SINR); calc_shannon_sum_capacity.
 
+Part 1b (numeric scale): SINR is a ratio, so every relation is exactly scale covariant.  On a
+reduced configuration set every relation above is repeated with receive filters x 1e-10 / 1e8
+(also per user 1e-10, 1, 1e8), precoders x 1e-10 / 1e8 (solver powers x 1e-20 / 1e16), channel
+matrix x 1e-9 / 1e6, path loss x 1e-16 on every link and 1e-12..1e-17 per link, everything small /
+everything big, noise None | 0 | 1e-13 | 1e-20, pe default | 1e-12; the rescale-invariance relation
+uses the factors {2, -0.5j, 1e-3, 1e-10, 1e8}.  All tolerances are relative to the operands
+(kappa = (signal + denominator) / denominator); there is no absolute floor.
+
 Part H (object reuse, engine E3): for every (class, layout, Ns, member) of hist_configs() a
 breadth-first exploration of every event history up to the depth bound over ONE channel object
 and ONE solver bound to it.  Events: set_pathloss(None | P1(,E1) | P2(,E2)), noise_var = None | 0 |
-0.1 | 2, init_from_channel_matrix(other family member, same layout), randomize (the library's
+0.1 | 2, init_from_channel_matrix(other family member, same layout), set_pathloss(-160 dB), noise 1e-13 | 1e-20,
+set_receive_filters(W = b * 1e-10), randomize (the library's
 random draw is scripted through the seam multiuser.randn_c_RS), set_precoders(F=a|b, full_F=b),
 set_receive_filters(W=a | W_H=b), P = None | unequal vector, and "touch" IC | JP | solver (evaluate
 the library so that its lazily filled caches are warm).  In EVERY reached state all
@@ -81,7 +90,23 @@ RULE = ("every (channel class, NtE, antenna layout, Ns tuple in {1,2}^K, path lo
 # solver's solve() is involved).  Defects move the values by >= 1e-3 relative.
 C_TOL = 2000.0
 KAPPA_MAX = 1e7         # cases whose cancellation/condition factor exceeds this are excluded + counted
-FACTORS = (2.0, -0.5j, 1e-3)
+FACTORS = (2.0, -0.5j, 1e-3, 1e-10, 1e8)
+RESCALE_ROUNDS_QUICK = 3   # round r multiplies column l of user k by FACTORS[(l+k+r) % 5]: 3 rounds
+#                            already give every factor to some column of every case; thorough: all 5
+
+# scale families (SINR is a ratio: every relation is exactly scale covariant, every tolerance is
+# relative to the operands - there is no absolute floor anywhere in this check)
+SCALES = [
+    ("U*1e-10", dict(U=1e-10)), ("U*1e8", dict(U=1e8)),
+    ("F*1e-10,P*1e-20", dict(F=1e-10, P=1e-20)), ("F*1e8,P*1e16", dict(F=1e8, P=1e16)),
+    ("H*1e-9", dict(H=1e-9)), ("H*1e6", dict(H=1e6)),
+    ("PL*1e-16", dict(PL="uniform")), ("PL*1e-12..1e-17", dict(PL="hetero")),
+    ("all_small", dict(H=1e-9, F=1e-10, U=1e-10, P=1e-20)),
+    ("all_big", dict(H=1e6, F=1e8, U=1e8, P=1e16)),
+    ("U_per_user", dict(Umix=(1e-10, 1.0, 1e8, 1e-3))),
+]
+SCALE_NOISES = [None, 0, 1e-13, 1e-20]
+SCALE_PES = [None, 1e-12]
 SOLVE_SAFETY = 8.0      # relations through the solver's solve(W^H H F, W^H): kappa = 8 cond(W^H H F) (1+SINR)
 
 LAYOUTS_QUICK = [([2, 2], [2, 2]), ([2, 3], [3, 2]), ([2, 2, 3], [2, 3, 2])]
@@ -148,6 +173,34 @@ def all_cases(tier):
                                                cls=solvers[0], fmode=fmode, wmode=wmode)
 
 
+def scale_cases(tier):
+    """Part 1b: numeric-scale families on a reduced configuration set (scale covariance)"""
+    thorough = tier == "thorough"
+    offs = _offs()
+    configs = [([2, 2], [2, 2], [2, 1]), ([2, 2, 3], [2, 3, 2], [1, 2, 1])]
+    if thorough:
+        configs += [([2, 2], [2, 2], [1, 1]), ([2, 3], [3, 2], [2, 2]), ([3, 3, 3], [3, 3, 3], [2, 1, 2])]
+    for Nr, Nt, Ns in configs:
+        for s in (range(3) if thorough else range(1)):
+            for name, sc in SCALES:
+                for noise in SCALE_NOISES:
+                    base = dict(Nr=list(Nr), Nt=list(Nt), Ns=list(Ns), pl=1 if "PL" in sc else 0,
+                                noise=noise, s=s, offs=offs, scale=name)
+                    for var in ("IC", "JP"):
+                        yield dict(base, kind="chan", chan="plain", NtE=None, pe=None, var=var,
+                                   int_layout=False)
+                        for NtE in (1, [1, 1]):
+                            for pe in SCALE_PES:
+                                yield dict(base, kind="chan", chan="ext", NtE=NtE, pe=pe, var=var,
+                                           int_layout=False)
+                    for fmode in FMODES:
+                        wmode = WMODES[(FMODES.index(fmode) + len(name)) % 2]
+                        yield dict(base, kind="solver", chan="plain", NtE=None, pe=None,
+                                   cls="IASolverBaseClass", fmode=fmode, wmode=wmode)
+                        yield dict(base, kind="solver", chan="ext", NtE=1, pe=None,
+                                   cls="IASolverBaseClass", fmode=fmode, wmode=wmode)
+
+
 # ----------------------------------------------------------------------
 # deterministic inputs
 # ----------------------------------------------------------------------
@@ -173,13 +226,32 @@ def make_inputs(case):
     ntE = nte_list(case)
     Hraw = gen(case, 21, 0, (sum(Nr), sum(Nt) + sum(ntE)))
     PL = None
-    if case["pl"]:
+    if case["pl"] and not case.get("scale"):
         g = gen(case, 24, 1, (K, K + len(ntE)))
         PL = 0.02 + 1.3 * (np.abs(g) - 0.1) ** 2          # positive, spans about two decades
     F = [gen(case, 22, 2 + k, (Nt[k], Ns[k])) for k in range(K)]
     Fjp = [gen(case, 25, 8 + k, (sum(Nt), Ns[k])) for k in range(K)]
     U = [gen(case, 23, 14 + k, (Nr[k], Ns[k])) for k in range(K)]
-    return dict(K=K, ntE=ntE, Hraw=Hraw, PL=PL, F=F, Fjp=Fjp, U=U)
+    sc = dict(SCALES)[case["scale"]] if case.get("scale") else {}
+    if "H" in sc:
+        Hraw = Hraw * sc["H"]
+    if "F" in sc:
+        F = [M * sc["F"] for M in F]
+        Fjp = [M * sc["F"] for M in Fjp]
+    if "U" in sc:
+        U = [M * sc["U"] for M in U]
+    if "Umix" in sc:
+        U = [U[k] * sc["Umix"][k % len(sc["Umix"])] for k in range(K)]
+    if "PL" in sc:
+        g = gen(case, 24, 1, (K, K + len(ntE)))
+        PL = 0.02 + 1.3 * (np.abs(g) - 0.1) ** 2
+        if sc["PL"] == "uniform":
+            PL = PL * 1e-16                                 # about -160 dB on every link
+        else:
+            ex = np.array([[12 + (3 * i + 5 * j) % 6 for j in range(PL.shape[1])]
+                           for i in range(PL.shape[0])], dtype=float)
+            PL = PL * 10.0 ** (-ex)                         # 1e-12 .. 1e-17, different per link
+    return dict(K=K, ntE=ntE, Hraw=Hraw, PL=PL, F=F, Fjp=Fjp, U=U, Pscale=sc.get("P", 1.0))
 
 
 def objarr(mats):
@@ -417,8 +489,11 @@ def sinr_matches(case, got, ref, parts, extra_kappa=None):
     return True
 
 
-def compare_sinr(chk, view, rel, case, got, ref, parts, extra_kappa=None, record=True):
-    """got / ref: [k][l]; returns number of compared streams"""
+def compare_sinr(chk, view, rel, case, got, ref, parts, extra_kappa=None, record=True,
+                 den_scale=None):
+    """got / ref: [k][l]; returns number of compared streams.  den_scale[k][l]: factor by which the
+    denominator of `parts` is multiplied in the evaluated call (rescaled filters); it only serves
+    to NAME a violation (coarse condition of the signature), never to decide it"""
     Ns = case["Ns"]
     n = 0
     for k in range(len(Ns)):
@@ -434,7 +509,11 @@ def compare_sinr(chk, view, rel, case, got, ref, parts, extra_kappa=None, record
             if record:
                 chk.outcome("normalized_error_decade", (view, rel, decade(max(ne, 1e-3))))
             if not ok:
-                chk.fail((view, rel, stream_class(Ns[k]), noise_class(case)), case,
+                den = sum(parts[k][l][1:])        # (both sides of a lib-vs-lib relation count)
+                den = min(den, den * (den_scale[k][l] if den_scale is not None else 1.0))
+                cond = (("nonzero_denominator_below_2^-52",) if 0 < den < EPS
+                        else (stream_class(Ns[k]), noise_class(case)))
+                chk.fail((view, rel) + cond, case,
                          observed="SINR[%d][%d]=%r" % (k, l, float(got[k][l])),
                          expected="%r (signal, own-stream, other-user, ext, noise powers = %r)"
                          % (float(ref[k][l]), parts[k][l]),
@@ -478,12 +557,16 @@ def record_outcomes(chk, case, ref_sinr, parts):
             den = (own, oth, ext, noise)
             chk.outcome("dominant_denominator_term", names[int(np.argmax(den))])
             chk.outcome("sinr_decade", decade(ref_sinr[k][l]))
+            chk.outcome("denominator_decade", decade(sum(den)))
+            if 0 < sum(den) < EPS:
+                chk.count("streams_with_nonzero_denominator_below_2^-52")
             chk.outcome("active_terms", tuple(v > 0 for v in den))
             if not (sig > 0 and sum(1 for v in den if v > 0) >= 1 and sum(den) > 0):
                 nontrivial = False
     cfg = (case["kind"], case["chan"], case.get("var"), tuple(case["Nr"]), tuple(case["Nt"]),
            tuple(case["Ns"]), case["pl"], repr(case["noise"]), repr(case["NtE"]), repr(case["pe"]),
-           case.get("cls"), case.get("fmode"), case.get("wmode"), bool(case.get("int_layout")))
+           case.get("cls"), case.get("fmode"), case.get("wmode"), bool(case.get("int_layout")),
+           case.get("scale"))
     if case["kind"] == "hist":
         chk.outcome("history_model_state", cfg + (case["model_key"],))
         if nontrivial:
@@ -494,8 +577,12 @@ def record_outcomes(chk, case, ref_sinr, parts):
         chk.nontriv(cfg + (case["s"],))
 
 
+def rescale_rounds(chk):
+    return len(FACTORS) if chk.tier == "thorough" else RESCALE_ROUNDS_QUICK
+
+
 def rescaled(U, r):
-    """every column l of every user's filter multiplied by FACTORS[(l + k + r) % 3]"""
+    """every column l of every user's filter multiplied by FACTORS[(l + k + r) % len(FACTORS)]"""
     out = []
     for k, Uk in enumerate(U):
         V = np.array(Uk, dtype=complex, copy=True)
@@ -557,11 +644,13 @@ def run_chan_case(case, chk, live=None):
                          expected=list(got_1))
 
         # 4. rescaling the receive filter columns changes nothing
-        for r in range(0 if live else len(FACTORS)):
+        for r in range(0 if live else rescale_rounds(chk)):
             got_r = fn(objarr(Fl), objarr(rescaled(Ul, r)), *pe_args)
             if check_shape(chk, view, name + "_rescaled", case, got_r, Ns):
                 compare_sinr(chk, view, name + "_filter_rescale_invariance", case, got_r,
-                             [[float(v) for v in got[k]] for k in range(K)], parts, record=False)
+                             [[float(v) for v in got[k]] for k in range(K)], parts, record=False,
+                             den_scale=[[abs(FACTORS[(l + k + r) % len(FACTORS)]) ** 2
+                                         for l in range(Ns[k])] for k in range(K)])
 
         # 5. covariance matrices
         Fo = objarr(Fl)
@@ -644,7 +733,7 @@ def solver_inputs(case, inp):
         P = None
         fullF = [np.array(F) for F in Fn]
     elif fmode == "F_Pvec":
-        P = np.array(P_UNEQUAL[:K], dtype=float)
+        P = np.array(P_UNEQUAL[:K], dtype=float) * inp.get("Pscale", 1.0)
         fullF = [Fn[k] * math.sqrt(P[k]) for k in range(K)]
     else:
         P = None
@@ -768,7 +857,7 @@ def run_solver_case(case, chk, live=None):
                              record=False)
 
         # rescaling the filter columns handed to the solver
-        for r in range(0 if live else len(FACTORS)):
+        for r in range(0 if live else rescale_rounds(chk)):
             sol_r = make_solver(rescaled(W, r))
             got_r = sol_r.calc_SINR()
             if check_shape(chk, view, "calc_SINR_rescaled", case, got_r, Ns):
@@ -875,14 +964,16 @@ def check_shape_db(chk, view, case, got, Ns):
 # populate the lazily filled caches - without them a rebuilt state never has a warm cache).  In
 # every reached state ALL state-dependent relations are evaluated against the first-principles
 # oracle of the CURRENT model state (path loss, noise, channel member, precoders, filters, powers).
-EV_FULL = ([("pl", 0), ("pl", 1), ("pl", 2)] +
-           [("noise", i) for i in range(len(NOISES))] +
+H_NOISES = NOISES + [1e-13, 1e-20]
+EV_FULL = ([("pl", 0), ("pl", 1), ("pl", 2), ("pl", 3)] +
+           [("noise", i) for i in range(len(H_NOISES))] +
            [("init", 1), ("init", 0), ("rand", 2)] +
-           [("setF", "a"), ("setF", "b"), ("setFull", "b"), ("setW", "a"), ("setW", "b")] +
+           [("setF", "a"), ("setF", "b"), ("setFull", "b"), ("setW", "a"), ("setW", "b"),
+            ("setW", "c")] +
            [("P", 0), ("P", 1)] +
            [("touch", "IC"), ("touch", "JP"), ("touch", "solver")])
-EV_CORE = [("pl", 0), ("pl", 1), ("pl", 2), ("noise", 0), ("noise", 2), ("init", 1), ("rand", 2),
-           ("setF", "b"), ("setW", "b"), ("P", 1),
+EV_CORE = [("pl", 0), ("pl", 1), ("pl", 3), ("noise", 0), ("noise", 2), ("init", 1), ("rand", 2),
+           ("setF", "b"), ("setW", "c"), ("P", 1),
            ("touch", "IC"), ("touch", "JP"), ("touch", "solver")]
 EVENT_NAME = {"pl": "set_pathloss", "noise": "noise_var", "init": "init_from_channel_matrix",
               "rand": "randomize", "setF": "set_precoders", "setFull": "set_precoders",
@@ -929,15 +1020,18 @@ def hist_data(cfg):
     shapeH = (sum(Nr), sum(Nt) + sum(ntE))
     H = {0: gen(cfg, 21, 0, shapeH), 1: gen(cfg, 21, 20, shapeH), 2: gen(cfg, 21, 21, shapeH)}
     PL = {0: None}
-    for i, idx in ((1, 1), (2, 5)):
+    for i, idx in ((1, 1), (2, 5), (3, 6)):
         g = gen(cfg, 24, idx, (K, K + len(ntE)))
         PL[i] = 0.02 + 1.3 * (np.abs(g) - 0.1) ** 2
+    PL[3] = PL[3] * 1e-16            # about -160 dB on every link
     F = {"a": [gen(cfg, 22, 2 + k, (Nt[k], Ns[k])) for k in range(K)],
          "b": [gen(cfg, 22, 30 + k, (Nt[k], Ns[k])) for k in range(K)]}
     W = {"a": [gen(cfg, 23, 14 + k, (Nr[k], Ns[k])) for k in range(K)],
          "b": [gen(cfg, 23, 40 + k, (Nr[k], Ns[k])) for k in range(K)]}
+    W["c"] = [M * 1e-10 for M in W["b"]]          # the same filters, tiny
     Fjp = [gen(cfg, 25, 8 + k, (sum(Nt), Ns[k])) for k in range(K)]
     return dict(K=K, ntE=ntE, H=H, PL=PL, F=F, W=W, Fjp=Fjp, U=W["a"],
+                U_tiny=[M * 1e-10 for M in W["a"]],
                 Pvec=np.array(P_UNEQUAL[:K], dtype=float))
 
 
@@ -1036,7 +1130,7 @@ def hist_build(cfg, data, hist):
             else:
                 ch.set_pathloss(np.array(PLm, copy=True))
         elif kind == "noise":
-            ch.noise_var = NOISES[arg]
+            ch.noise_var = H_NOISES[arg]
         elif kind == "init":
             init(arg)
         elif kind == "rand":
@@ -1055,7 +1149,7 @@ def hist_build(cfg, data, hist):
             sol.set_precoders(full_F=objarr([data["F"][arg][k] * (1.7 + 0.9 * k)
                                              for k in range(K)]))
         elif kind == "setW":
-            if arg == "a":
+            if arg in ("a", "c"):
                 sol.set_receive_filters(W=objarr([np.array(m_) for m_ in data["W"][arg]]))
             else:
                 sol.set_receive_filters(W_H=objarr([np.array(m_).conj().T
@@ -1144,12 +1238,14 @@ def _hist_observe_raw(chk, cfg, data, hist, st):
     inp = dict(K=data["K"], ntE=data["ntE"], Hraw=data["H"][m["mem"]], PL=data["PL"][m["pl"]],
                F=data["F"]["a"], Fjp=data["Fjp"], U=data["U"])
     mk = (m["mem"], m["pl"], m["noise"], m["F"], m["W"], m["P"], m["cached"], m["stale"])
-    sub = dict(cfg, hist=[list(e) for e in hist], noise=NOISES[m["noise"]], pl=m["pl"],
+    sub = dict(cfg, hist=[list(e) for e in hist], noise=H_NOISES[m["noise"]], pl=m["pl"],
                fmode="hist", wmode="hist", int_layout=False, model_key=repr(mk))
     cname = "chan_plain" if not ext else "chan_extint"
     for var, pe in (("IC", 0.5 if ext else None), ("JP", None)):
+        # (the filters handed to the channel object are arguments, not state: JP gets tiny ones)
         run_chan_case(dict(sub, var=var, pe=pe), chk,
-                      live=dict(view="hist|%s_%s" % (cname, var), inp=inp, ch=st.ch))
+                      live=dict(view="hist|%s_%s" % (cname, var), ch=st.ch,
+                                inp=inp if var == "IC" else dict(inp, U=data["U_tiny"])))
     Fn, P, fullF = model_precoders(m, data)
     run_solver_case(dict(sub, var=None, pe=None), chk,
                     live=dict(view="hist|%s" % ("solver_extint" if ext else "solver"),
@@ -1250,13 +1346,17 @@ def main(chk: Check):
     chk.extra["filter_rescale_factors"] = [repr(f) for f in FACTORS]
     ncase = sum(1 for _ in all_cases(chk.tier))
     chk.extra["enumerated_cases"] = ncase
+    chk.extra["scale_cases"] = sum(1 for _ in scale_cases(chk.tier))
+    chk.extra["scale_families"] = [n for n, _ in SCALES] + [
+        "noise %r" % SCALE_NOISES, "pe %r" % SCALE_PES]
     chk.extra["history_units"] = sum(1 for _ in hist_units(chk.tier))
     chk.extra["history_configurations"] = [list(c[:6]) + [c[6], "depth %d" % c[7]]
                                            for c in hist_configs(chk.tier)]
 
     def worker(i, n, c):
         # the (heavier) history units first so that they spread evenly over the workers
-        for case in shard(itertools.chain(hist_units(c.tier), all_cases(c.tier)), i, n):
+        for case in shard(itertools.chain(hist_units(c.tier), scale_cases(c.tier),
+                                          all_cases(c.tier)), i, n):
             run_case(case, c)
 
     run_shards(chk, worker)
@@ -1273,6 +1373,10 @@ def main(chk: Check):
     chk.require_outcomes("configuration", 100)
     chk.require_outcomes("history_model_state", 200)
     chk.require_outcomes("history_depth", 2)
+    chk.require_outcomes("denominator_decade", 30)
+    if not chk.counters.get("streams_with_nonzero_denominator_below_2^-52", 0) >= 1000:
+        from vmc.report import Broken
+        raise Broken("vacuous: scale families do not reach denominators below machine epsilon")
 
 
 def replay(case, chk: Check):
